@@ -33,13 +33,14 @@ from ckl.interpreter import Interpreter
 from ckl.values import StringInput, StringOutput
 from ckl.errors import CklRuntimeError, CklSyntaxError
 progs = json.load(open(sys.argv[2]))
+class TimeoutError(BaseException): pass
 def handler(signum, frame): raise TimeoutError()
 signal.signal(signal.SIGALRM, handler)
 out = []
 for src in progs:
     it = Interpreter(True, True)
     o = StringOutput(); it.setStandardOutput(o); it.setStandardInput(StringInput(""))
-    signal.setitimer(signal.ITIMER_REAL, 5)
+    signal.setitimer(signal.ITIMER_REAL, 5, 0.5)
     try:
         v = it.interpret(src, "p")
         r = ["val", str(v), o.output]
